@@ -146,3 +146,10 @@ def t_reduce_only_valuation(world):
 _t_rov = tasks
 def tasks(tier):
     return _t_rov(tier) + [('reduce_only_valuation', t_reduce_only_valuation)]
+
+
+
+# ---------------------------------------------------------------- second engine (thorough tier): one obligation re-decided by Kani/CBMC on the compiled code
+def kani(tier):
+    if tier != 'thorough': return []
+    return [dict(harness='bank_state_table', oid='C14.k', covers=2, stubs=5, desc='SECOND ENGINE (Kani/CBMC on the compiled code): validate_bank_state == the 4 x 4 reference table (killed rejects everything)', functions=['marginfi::utils::validate_bank_state'], bounds='all 16 combinations, decided symbolically')]
